@@ -258,6 +258,33 @@ func runC25(c *Ctx) {
 			return true
 		})
 		c.Check(ok && readsDefault, "R25b", "Default:resets-in-calling-scope", fd.Pos(), "Default reads Properties.Default and re-sets it through the receiver's own Set (so the calling scope's routing applies)")
+		// every return is either an error or the Set call: no path ends without storing the declared default
+		okAll := true
+		var badPos = fd.Pos()
+		ast.Inspect(fd.Body, func(nd ast.Node) bool {
+			if _, isLit := nd.(*ast.FuncLit); isLit {
+				return false
+			}
+			rs, isR := nd.(*ast.ReturnStmt)
+			if !isR || len(rs.Results) != 1 {
+				return true
+			}
+			r := unparen(rs.Results[0])
+			if call, isC := r.(*ast.CallExpr); isC {
+				if callIs(info, call, mx("config"), "Config", "Set") {
+					if se := call.Fun.(*ast.SelectorExpr); selPath(se.X) == rv {
+						return true
+					}
+				}
+				if o := callee(info, call); o != nil && o.Pkg() != nil && (o.Pkg().Path() == "fmt" || o.Pkg().Path() == "errors") {
+					return true
+				}
+			}
+			okAll = false
+			badPos = rs.Pos()
+			return true
+		})
+		c.Check(okAll, "R25b", "Default:every-success-path-sets", badPos, "every return of Default is an error or `conf.Set(app, key, <declared default>, …)`: a path that merely forgets the local override would expose the session value instead of the declared default")
 	}
 	// builtin: config default → p.Config.Default ; config set → p.Config.Set
 	if bp := c.Pkg("builtins/core/config"); bp != nil {
